@@ -117,6 +117,8 @@ func init() {
 				Bound: "each of 13 directive keys with an argument of arbitrary kind (symbolic-kind scalar with ints in [-2,5], 16 directive/path strings, [], {}, [s], [str], {a:s}, [{a:1},x], {$match:{},$path:a}) at 7 positions (root, nested map, nested with siblings, list entry, list entry with sibling, two levels down, host under its own key), alone and as the upper of two layers; engine-enforced: no reachable panic, every path within 5e6 instructions and 20000 frames"},
 			{Pkg: "bkl", Func: "HarnessC08_strings", Tiers: "qt", Covers: []string{"fuzz.error", "fuzz.output"},
 				Bound: "16 directive-shaped strings as value, list entry, key, nested key and $value argument, next to a second such string"},
+			{Pkg: "bkl", Func: "HarnessC03_cycle", Tiers: "qt", Covers: []string{"cycle.checked"},
+				Bound: "$parent cycles of length 1, 2 and 3 between files of a virtual file system: must end in an error (no hang, no memory blow-up)"},
 			{Pkg: "bkl", Func: "HarnessC08_refs", Tiers: "qt", Covers: []string{"refs.cyclic", "refs.acyclic"},
 				Bound: "all reference graphs over three nodes (13^3 documents): each node a leaf or one reference ($merge key, $replace key, $merge: string, interpolation) to any node; every cycle outside region C08-K2 must be reported as an error"},
 		},
@@ -246,5 +248,50 @@ func init() {
 		},
 		Assume:  pipeAssume,
 		Outside: "format-specific Output/OutputToWriter/OutputToFile (they add only the codec to OutputDocuments); MergeFileLayers (C03); more than 4 calls",
+	})
+
+	vfsAssume := append([]string{
+		"virtual file system: os.Stat, filepath.Glob (real filepath.Match per entry), filepath.EvalSymlinks, filepath.Abs/Rel answer from the tree the harness built; they are NOT confined to a root (as the real ones)",
+		"os.Root contract: OpenRoot/Open(rel) fail when rel is absolute or, resolved component by component including symlink targets, leaves the root directory; io.ReadAll + Format.UnmarshalStream of an opened virtual file yield its logical documents",
+		"os.Open / os.ReadFile are modelled as unconfined reads and recorded (bkl must not obtain content that way)",
+	}, pipeAssume...)
+	reg(propSpec{
+		ID: "C03",
+		Harnesses: []harnessSpec{
+			{Pkg: "bkl", Func: "HarnessC03_chain", Tiers: "qt", Covers: []string{"chain.accepted", "chain.rejected"},
+				Bound: "chains a, a.b, a.b.c (thorough: a.b.c.d) with 1-3 (4) layers, each file under any supported extension (quick: two per file, rotating), contents {v: any scalar, k_i: i}; the same contents as x, y, z wired by $parent; both equal the explicit base-first MergeDocument fold (outputs and error status)"},
+			{Pkg: "bkl", Func: "HarnessC03_missing", Tiers: "qt", Covers: []string{"missing.checked"},
+				Bound: "any one non-top layer of a 2-3 layer chain missing; a $parent naming no file"},
+			{Pkg: "bkl", Func: "HarnessC03_parentforms", Tiers: "qt", Covers: []string{"forms.none", "forms.list", "forms.wildcard", "forms.invalid"},
+				Bound: "$parent false/null on a dotted file name, a list of two, a wildcard p.* with a deeper p.two.deep present, $parent: true, conflicting directives in one file"},
+			{Pkg: "bkl", Func: "HarnessC03_multi", Tiers: "qt", Covers: []string{"multi.checked"},
+				Bound: "two inputs applied left to right (sequential MergeFileLayers)"},
+			{Pkg: "bkl", Func: "HarnessC03_skipparent", Tiers: "qt", Covers: []string{"skipparent.checked"},
+				Bound: "MergeFile (what -P calls) on a file without / with $parent: name / with $parent: false"},
+			{Pkg: "bkl", Func: "HarnessC03_symlink", Tiers: "qt", Covers: []string{"symlink.checked"},
+				Bound: "a symlinked layer inherits from its target's name"},
+		},
+		Assume:  vfsAssume,
+		Outside: "the real file system and kernel; go-flags parsing and the glue of cmd/bkl/main.go (the -P and multi-input clauses are checked at the library calls main makes); stdin; two files providing the same layer name",
+	})
+	reg(propSpec{
+		ID: "C18",
+		Harnesses: []harnessSpec{
+			{Pkg: "bkl", Func: "HarnessC18_root", Tiers: "qt", Covers: []string{"root.inside", "root.escape"},
+				Bound: "root /w/root with a decoy layer outside it; 8 ways to reach for it ($parent with .., absolute $parent, input symlink, file-name parent symlink, directory symlink, chained symlinks, absolute symlink target, and a control that stays inside) x 4 root spellings (relative, with ./.. segments, absolute, nested SetRoot calls); three-fold self-composition: decoy content D1, content D2 (symbolic), decoy absent -> same status and output; every escape fails; no content obtained from outside the root"},
+		},
+		Assume:  vfsAssume,
+		Outside: "the real semantics of os.Root and the kernel (assumed by contract, cross-checked on the sampled paths by native replay against the real os.Root); races with concurrent file-system changes; the CLI flag",
+	})
+	reg(propSpec{
+		ID: "C20",
+		Harnesses: []harnessSpec{
+			{Pkg: "wrapper", Func: "HarnessC20_args", Tiers: "qt", Covers: []string{"wrap.passthrough", "wrap.replaced", "wrap.evalfails", "wrap.notfound"},
+				Bound: "1-3 (quick) / 0-4 (thorough) arguments, each a flag, --opt=value, word, existing non-bkl file, existing layer file, virtual name with another supported extension, supported extension without a layer, a layer whose evaluation fails, or EVERY alphanumeric name of <= 2 bytes (optionally + .toml) that names no layer; wrapped program found on PATH or not; observed at syscall.Exec"},
+		},
+		Assume: append([]string{
+			"os.Args, exec.LookPath, os.CreateTemp (fresh unique name), os.OpenFile/Write (virtual FS), syscall.Exec (observation point, ends the run), os.Exit are environment stubs; native replay runs the real wrapper in a child process with a recording stand-in on PATH",
+		}, vfsAssume...),
+		Outside: "the real exec, PATH search, temp-file naming and permissions; cmd/bklb's derivation of the program name from argv[0]",
 	})
 }
